@@ -1,4 +1,5 @@
-// Model of the OUT-OF-LINE parts of protobuf 3.21 coded streams (libprotobuf.so has no IR) for flat-array-backed streams.
+// Model of the OUT-OF-LINE parts of protobuf 3.21 coded streams (libprotobuf.so has no IR): flat-array-backed streams and
+// (third session) ZeroCopyInputStream-backed ones (Refresh / limits / BackUp as in coded_stream.cc).
 // The inline fast paths (ReadVarint*, ReadTag, WriteVarint*ToArray, EnsureSpace, ...) are the real header code.
 // Part of the trusted base; every run replays solver witnesses natively against the real libprotobuf to validate it.
 #include <google/protobuf/io/coded_stream.h>
@@ -8,11 +9,36 @@ namespace google { namespace protobuf { namespace io {
 std::atomic<bool> CodedOutputStream::default_serialization_deterministic_{false};     // libprotobuf's initial values
 int CodedInputStream::default_recursion_limit_ = 100;
 // ---------------------------------------------------------------- input (array-backed: input_ == nullptr)
-CodedInputStream::~CodedInputStream() {}
+CodedInputStream::~CodedInputStream() { if (input_ != nullptr) BackUpInputToCurrentPosition(); }
+// ---------------------------------------------------------------- stream-backed input (input_ != nullptr), after protobuf 3.21 coded_stream.cc
+void CodedInputStream::BackUpInputToCurrentPosition() {
+  int backup_bytes = BufferSize() + buffer_size_after_limit_ + overflow_bytes_;
+  if (backup_bytes > 0) {
+    input_->BackUp(backup_bytes);
+    total_bytes_read_ -= BufferSize() + buffer_size_after_limit_;
+    buffer_end_ = buffer_; buffer_size_after_limit_ = 0; overflow_bytes_ = 0;
+  }
+}
+bool CodedInputStream::Refresh() {
+  if (input_ == nullptr) return false;              // flat array: nothing to refill from
+  if (buffer_size_after_limit_ > 0 || overflow_bytes_ > 0 || total_bytes_read_ == current_limit_) return false;       // hit a limit
+  const void* void_buffer; int buffer_size; bool got;
+  do { got = input_->Next(&void_buffer, &buffer_size); } while (got && buffer_size == 0);       // NextNonEmpty
+  if (got) {
+    buffer_ = reinterpret_cast<const uint8_t*>(void_buffer);
+    buffer_end_ = buffer_ + buffer_size;
+    if (total_bytes_read_ <= INT_MAX - buffer_size) total_bytes_read_ += buffer_size;
+    else { overflow_bytes_ = total_bytes_read_ - (INT_MAX - buffer_size); buffer_end_ -= overflow_bytes_; total_bytes_read_ = INT_MAX; }
+    RecomputeBufferLimits();
+    return true;
+  }
+  buffer_ = nullptr; buffer_end_ = nullptr;
+  return false;
+}
 std::pair<uint64_t, bool> CodedInputStream::ReadVarint64Fallback() {
   uint64_t result = 0; int shift = 0;
   for (int i = 0; i < 10; ++i) {
-    if (buffer_ == buffer_end_) return std::make_pair((uint64_t)0, false);       // Refresh() fails on a flat array
+    while (buffer_ == buffer_end_) if (!Refresh()) return std::make_pair((uint64_t)0, false);       // Refresh() fails on a flat array
     uint8_t b = *buffer_++;
     result |= (uint64_t)(b & 0x7f) << shift; shift += 7;
     if (!(b & 0x80)) return std::make_pair(result, true);
@@ -23,7 +49,7 @@ int64_t CodedInputStream::ReadVarint32Fallback(uint32_t first_byte_or_zero) {
   (void)first_byte_or_zero;
   uint64_t result = 0; int shift = 0;
   for (int i = 0; i < 10; ++i) {
-    if (buffer_ == buffer_end_) return -1;
+    while (buffer_ == buffer_end_) if (!Refresh()) return -1;
     uint8_t b = *buffer_++;
     if (shift < 64) result |= (uint64_t)(b & 0x7f) << shift; shift += 7;
     if (!(b & 0x80)) return (int64_t)(uint32_t)result;
@@ -33,13 +59,25 @@ int64_t CodedInputStream::ReadVarint32Fallback(uint32_t first_byte_or_zero) {
 uint32_t CodedInputStream::ReadTagFallback(uint32_t first_byte_or_zero) {
   (void)first_byte_or_zero;
   if (buffer_ == buffer_end_) {
-    // end of the array (or of the current limit): a legitimate message end
-    if (buffer_size_after_limit_ > 0 || total_bytes_read_ == current_limit_ || true) legitimate_message_end_ = true;
-    return 0;
+    if (input_ == nullptr) {
+      // end of the array (or of the current limit): a legitimate message end
+      legitimate_message_end_ = true;
+      return 0;
+    }
+    // stream-backed (ReadTagFallback + ReadTagSlow of coded_stream.cc)
+    if ((buffer_size_after_limit_ > 0 || total_bytes_read_ == current_limit_) && total_bytes_read_ - buffer_size_after_limit_ < total_bytes_limit_) {
+      legitimate_message_end_ = true; return 0;
+    }
+    if (!Refresh()) {
+      int current_position = total_bytes_read_ - buffer_size_after_limit_;
+      if (current_position >= total_bytes_limit_) legitimate_message_end_ = current_limit_ == total_bytes_limit_;
+      else legitimate_message_end_ = true;
+      return 0;
+    }
   }
   uint64_t result = 0; int shift = 0;
   for (int i = 0; i < 10; ++i) {
-    if (buffer_ == buffer_end_) return 0;
+    while (buffer_ == buffer_end_) if (!Refresh()) return 0;
     uint8_t b = *buffer_++;
     if (shift < 64) result |= (uint64_t)(b & 0x7f) << shift; shift += 7;
     if (!(b & 0x80)) return (uint32_t)result;
@@ -47,13 +85,26 @@ uint32_t CodedInputStream::ReadTagFallback(uint32_t first_byte_or_zero) {
   return 0;
 }
 bool CodedInputStream::SkipFallback(int count, int original_buffer_size) {
-  (void)count; (void)original_buffer_size;
-  // inline Skip() comes here only when fewer than `count` bytes are left in the buffer: a flat array cannot refill
-  buffer_ = buffer_end_;
-  return false;
+  if (input_ == nullptr) {
+    // inline Skip() comes here only when fewer than `count` bytes are left in the buffer: a flat array cannot refill
+    buffer_ = buffer_end_;
+    return false;
+  }
+  if (buffer_size_after_limit_ > 0) { Advance(original_buffer_size); return false; }      // hit a limit inside this buffer
+  count -= original_buffer_size;
+  buffer_ = nullptr; buffer_end_ = buffer_;
+  int closest_limit = current_limit_ < total_bytes_limit_ ? current_limit_ : total_bytes_limit_;
+  int bytes_until_limit = closest_limit - total_bytes_read_;
+  if (bytes_until_limit < count) {
+    if (bytes_until_limit > 0) { total_bytes_read_ = closest_limit; input_->Skip(bytes_until_limit); }
+    return false;
+  }
+  if (!input_->Skip(count)) { total_bytes_read_ = (int)input_->ByteCount(); return false; }
+  total_bytes_read_ += count;
+  return true;
 }
 bool CodedInputStream::GetDirectBufferPointer(const void** data, int* size) {
-  if (buffer_ == buffer_end_) return false;        // BufferSize() == 0 && !Refresh(): a flat array (or its limit) is exhausted
+  if (buffer_ == buffer_end_ && !Refresh()) return false;        // BufferSize() == 0 && !Refresh(): a flat array (or its limit) is exhausted
   *data = buffer_; *size = (int)(buffer_end_ - buffer_);
   return true;
 }
@@ -96,8 +147,20 @@ int CodedInputStream::BytesUntilLimit() const {
   return current_limit_ - current_position;
 }
 bool CodedInputStream::ReadRaw(void* buffer, int size) {
-  if (size < 0 || BufferSize() < size) { buffer_ = buffer_end_; return false; }
-  memcpy(buffer, buffer_, size); buffer_ += size; return true;
+  if (size < 0) return false;
+  if (input_ == nullptr) {
+    if (BufferSize() < size) { buffer_ = buffer_end_; return false; }
+    memcpy(buffer, buffer_, size); buffer_ += size; return true;
+  }
+  int current_buffer_size;                          // ReadRawFallback
+  while ((current_buffer_size = BufferSize()) < size) {
+    memcpy(buffer, buffer_, current_buffer_size);
+    buffer = reinterpret_cast<uint8_t*>(buffer) + current_buffer_size;
+    size -= current_buffer_size; Advance(current_buffer_size);
+    if (!Refresh()) return false;
+  }
+  memcpy(buffer, buffer_, size); Advance(size);
+  return true;
 }
 // ---------------------------------------------------------------- output
 uint8_t* EpsCopyOutputStream::Next() {
